@@ -279,8 +279,17 @@ def val_repr(pd, x):
     return str(int(x)) if pd == "i64" else repr(float(x))
 
 
+_BIN1D_CALLS = [0]
+
+
 def impl_bin1d(p, bins, tol, rc):
+    """every third call runs under numpy.errstate(divide='raise', invalid='raise') (round 7, class k: probed — the unchanged tree
+    answers every value class, the huge ones and +inf included, without tripping it)"""
     from csep.utils.calc import bin1d_vec
+    _BIN1D_CALLS[0] += 1
+    if _BIN1D_CALLS[0] % 3 == 0:
+        with numpy.errstate(divide="raise", invalid="raise"):
+            return bin1d_vec(p, bins, tol=tol, right_continuous=rc)
     return bin1d_vec(p, bins, tol=tol, right_continuous=rc)
 
 
@@ -1207,7 +1216,23 @@ def check_numdec(ctx, n):
                                "its value is checked only through the public cleaner_range / magnitude_bins results")
 
 
-def check_cleaner(ctx, S, D, m, cnt, off, fn="cleaner_range", tag="gen", asint=False):
+def call_in_global_state(ctx, case, f, *a):
+    """(k) GLOBAL NUMERIC STATE: half of the generator calls run with the caller's decimal context lowered to 2..6 digits and numpy
+    set to raise on divide / invalid (probed: the unchanged tree returns the same edges in that state); the state is stored in the
+    case, so a replay repeats it. The harness's own arithmetic (Fraction, Decimal constructors) is outside."""
+    import decimal
+    st = case.get("state")
+    if st is None and "state" not in case:
+        st = case["state"] = (f"decimal prec {ctx.rng.choice([2, 3, 4, 5, 6])} + numpy.errstate(divide/invalid raise)" if ctx.rng.random() < 0.5 else "")
+    if not st:
+        return f(*a)
+    with decimal.localcontext() as dctx:
+        dctx.prec = int(st.split()[2])
+        with numpy.errstate(divide="raise", invalid="raise"):
+            return f(*a)
+
+
+def check_cleaner(ctx, S, D, m, cnt, off, fn="cleaner_range", tag="gen", asint=False, state=None):
     """start=S/10^m, step=D/10^m, end=(S+cnt*D+off)/10^m (0 <= off < D/2): output must be the nearest doubles of
     (S+k*D)/10^m, k=0..cnt"""
     run = ctx.run
@@ -1222,14 +1247,16 @@ def check_cleaner(ctx, S, D, m, cnt, off, fn="cleaner_range", tag="gen", asint=F
         start, end = int(start), int(end)
     case = dict(kind="cleaner", S=S, D=D, m=m, cnt=cnt, off=off, fn=fn, tag=tag, asint=asint,
                 call=f"{fn}({start!r}, {end!r}, {h!r})")
+    if state is not None:
+        case["state"] = state          # replay: the global numeric state of the failing call
     try:
         if fn == "cleaner_range":
             from csep.utils.calc import cleaner_range as f
         else:
             from csep.core.regions import magnitude_bins as f
-        out = f(start, end, h)
+        out = call_in_global_state(ctx, case, f, start, end, h)
     except Exception as e:
-        run.oracle_failure(case, f"exception {type(e).__name__}: {e}")
+        run.oracle_failure(case, f"exception {type(e).__name__}: {e}" + (f" (under {case['state']})" if case.get("state") else ""))
         return
     out = numpy.asarray(out)
     expect = [float(Fraction(S + k * D, sc)) for k in range(cnt + 1)]
@@ -1279,24 +1306,26 @@ def rand_cleaner(ctx, rng, nmax):
 # and repaired in /repo by fix D49: the class is now a generated, ENFORCED class; witnesses in corpus/C02/d49_cleaner_fallback.json)
 
 
-def check_cleaner_float(ctx, start, end, h, tag):
+def check_cleaner_float(ctx, start, end, h, tag, state=None, fn=None):
     """ANY float arguments — in particular steps that are not short decimals (1/3, 1/30, 1/35, the noise of a float
     difference, 16-17 digit decimals: the fallback path of cleaner_range). The property's reading here: the result is the
     grid start + k*h (k = 0 .. while start + k*h <= end + h/2) to rounding (1e-12 relative to the largest coordinate).
     Correspondence: `c02_cleaner_auto` (both paths modelled, bit-exact recorded)."""
     import math
     run = ctx.run
-    fn = ctx.rng.choice(["cleaner_range", "magnitude_bins"])
+    fn = fn or ctx.rng.choice(["cleaner_range", "magnitude_bins"])
     case = dict(kind="cleaner-float", start=repr(start), end=repr(end), h=repr(h), fn=fn, tag=tag,
                 call=f"{fn}({start!r}, {end!r}, {h!r})")
+    if state is not None:
+        case["state"] = state
     try:
         if fn == "cleaner_range":
             from csep.utils.calc import cleaner_range as f
         else:
             from csep.core.regions import magnitude_bins as f
-        out = numpy.asarray(f(start, end, h))
+        out = numpy.asarray(call_in_global_state(ctx, case, f, start, end, h))
     except Exception as e:
-        run.oracle_failure(case, f"exception {type(e).__name__}: {e}")
+        run.oracle_failure(case, f"exception {type(e).__name__}: {e}" + (f" (under {case['state']})" if case.get("state") else ""))
         return
     run.case(case, ("cleaner-float", repr(start), repr(end), repr(h)))
     run.count("cleaner_float_cases")
@@ -1453,7 +1482,7 @@ def run_case(ctx, case):
         check_values(ctx, g, vals, tol, bool(case.get("rc", False)), case.get("tag", "corpus"), len(vals))
     elif kind == "cleaner":
         check_cleaner(ctx, case["S"], case["D"], case["m"], case["cnt"], case.get("off", 0),
-                      fn=case.get("fn", "cleaner_range"), tag=case.get("tag", "corpus"), asint=case.get("asint", False))
+                      fn=case.get("fn", "cleaner_range"), tag=case.get("tag", "corpus"), asint=case.get("asint", False), state=case.get("state"))
     elif kind == "grid":
         g = build_grid(case["grid"])
         run_grid(ctx, g, pds=("f64",), n_model=100, tag="replay")
@@ -1462,7 +1491,8 @@ def run_case(ctx, case):
         for i in range(250):
             guarded(ctx, dict(kind="cleaner-args", seed_index=i), rand_cleaner, ctx, ctx.rng, 2000)
     elif kind == "cleaner-float":
-        check_cleaner_float(ctx, float(case["start"]), float(case["end"]), float(case["h"]), case.get("tag", "corpus"))
+        check_cleaner_float(ctx, float(case["start"]), float(case["end"]), float(case["h"]), case.get("tag", "corpus"),
+                            state=case.get("state"), fn=case.get("fn"))
     elif kind == "numdec":
         check_numdec(ctx, 50)
     elif kind == "disc":
